@@ -388,6 +388,14 @@ def run(prog, ctx):
                     newattr = ("a", ("n", "self"), new)
                     whole_iter = it in (("call", ("a", newattr, "keys"), (), ()), newattr)
                     same_key = any(x == ("s", newattr, k) for x in subterms(v))
+                    # `for key, value in self.new.items(): self.old[key] = list(value)`: the loop's second target is new[key]
+                    if it == ("call", ("a", newattr, "items"), (), ()) and loops and isinstance(loops[-1].target, ast.Tuple) \
+                            and len(loops[-1].target.elts) == 2 and all(isinstance(e_, ast.Name) for e_ in loops[-1].target.elts):
+                        kn, vn = loops[-1].target.elts[0].id, loops[-1].target.elts[1].id
+                        rebound = any(isinstance(x_, ast.Name) and isinstance(x_.ctx, ast.Store) and x_.id in (kn, vn)
+                                      for st_ in loops[-1].body for x_ in ast.walk(st_))
+                        whole_iter = not rebound
+                        same_key = k == ("n", kn) and any(x == ("n", vn) for x in subterms(v))
                     if not (whole_iter and same_key):
                         problems.append("%s[%s] is filled with %s while iterating %s" % (old, show(k), show(v), show(it)))
                     if not any(cf.dominates(cf.node_of(r.stmt), cf.node_of(s.stmt)) for r in resets_old):
